@@ -42,3 +42,21 @@ func init() {
 		Assume: schedExploreAssume,
 	}
 }
+
+func init() {
+	cfgs["C16"] = checkCfg{
+		Variant: "sched", Validate: false,
+		Budget: dur(170, 1700),
+		Rule:   "all histories of host invocations (SpawnSync by name with arguments) of length <= 2 (quick) / <= 3 (thorough) over an 11-call alphabet on ONE live VM (argument order, persistent globals, return from loop+try, uncaught throw, recursion, object result, caught throw), each under all schedules within a delay bound (quick 2, thorough 3; inspected variant 1/2), plus histories one call longer at delay bound 1; oracle: per-call results equal the reference evaluator run on the same history, no residue (cores, locks, frames, handlers, operand stack, memory pointer, unfinished threads) after a completed call, failure instead of blocking after a failed call; deadlock/livelock are terminal scheduler states; states = executions, transitions = scheduling choice points",
+		Assume: schedExploreAssume,
+	}
+}
+
+func init() {
+	cfgs["C10"] = checkCfg{
+		Variant: "sched", Validate: false,
+		Budget: dur(170, 1700),
+		Rule:   "VM: the host's cancel() is a one-step low-priority thread, so 'cancel at scheduling point k' is exactly one deviation; ALL schedules within a delay bound (1 = every cancellation point of the default schedule; quick explores bound 2 = every cancellation point combined with one further scheduling deviation, thorough bound 3) for programs with infinite loops, try/catch loops, loops inside handlers, sleeping loops, unbounded recursion, finite programs and 1-2 spawned cores; the context additionally fires by itself after 12 cancellation polls so every execution is finite; oracle: Wait returns a termination interrupt (or the program's own outcome if it finished first), no thread is left blocked, at most one quantum of output after the cancel step, deadlock/livelock are terminal scheduler states. Interpreter: context reports done from its k-th poll on for every k; states = executions, transitions = scheduling points / polls",
+		Assume: schedExploreAssume,
+	}
+}
